@@ -247,19 +247,20 @@ Proof.
   destruct (getbit s) as [[fin s1]|] eqn:E1; [|reflexivity]. apply getbit_bits in E1.
   destruct (getbits 2 s1) as [[ty s2]|] eqn:E2; [|reflexivity]. apply getbits_bits in E2.
   cbv zeta.
-  assert (Hb : (if ty =? 0 then stored limit s2 o
-                else if ty =? 1 then codes cf1 limit fixed_lt fixed_dt s2 o
-                else if ty =? 2 then dynamic cf1 limit s2 o else None)
-             = (if ty =? 0 then stored limit s2 o
-                else if ty =? 1 then codes cf2 limit fixed_lt fixed_dt s2 o
-                else if ty =? 2 then dynamic cf2 limit s2 o else None)).
-  { destruct (ty =? 0); [reflexivity|].
+  set (B1 := if ty =? 0 then stored limit s2 o
+             else if ty =? 1 then codes cf1 limit fixed_lt fixed_dt s2 o
+             else if ty =? 2 then dynamic cf1 limit s2 o else None).
+  set (B2 := if ty =? 0 then stored limit s2 o
+             else if ty =? 1 then codes cf2 limit fixed_lt fixed_dt s2 o
+             else if ty =? 2 then dynamic cf2 limit s2 o else None).
+  assert (Hb : B1 = B2).
+  { unfold B1, B2. destruct (ty =? 0); [reflexivity|].
     destruct (ty =? 1); [apply codes_fuel; [exact fixed_lt_not_leaf|lia|lia]|].
     destruct (ty =? 2); [apply dynamic_fuel; lia|reflexivity]. }
-  rewrite Hb.
-  destruct (if ty =? 0 then _ else _) as [[s3 o3]|] eqn:E3; [|reflexivity].
+  rewrite Hb. clear Hb B1.
+  destruct B2 as [[s3 o3]|] eqn:E3; [|reflexivity].
   assert (Hs3 : (bits_left s3 <= bits_left s2)%nat).
-  { destruct (ty =? 0); [exact (stored_bits _ _ _ _ _ E3)|].
+  { unfold B2 in E3. destruct (ty =? 0); [exact (stored_bits _ _ _ _ _ E3)|].
     destruct (ty =? 1); [exact (codes_bits _ _ _ _ _ _ _ _ E3)|].
     destruct (ty =? 2); [exact (dynamic_bits _ _ _ _ _ _ E3)|discriminate]. }
   destruct fin; [reflexivity|]. apply IH; lia.
